@@ -135,10 +135,10 @@ def one_document(ctx, schema, holder, dump, sdl, enum_kind, label, text, variabl
         ast = parse(text)
     except GraphQLSyntaxError:
         ctx.stat(stream + ":unparseable")
-        return
+        return "syntax"
     except RecursionError:
         ctx.stat(stream + ":parse-recursion")
-        return
+        return "syntax"
     ctx.count()
     base = {"sdl": sdl, "enum_kind": enum_kind, "document": text, "variables": variables, "operation_name": opname, "label": label}
     try:
@@ -146,7 +146,7 @@ def one_document(ctx, schema, holder, dump, sdl, enum_kind, label, text, variabl
     except RecursionError as e:
         ctx.stat(stream + ":validate-raises:RecursionError")
         ctx.fail("validate-raises:RecursionError:" + raise_site(e), "validate_ast raises RecursionError", base)
-        return
+        return "raises:RecursionError"
     except Exception as e:  # noqa
         site = raise_site(e)
         ctx.stat(stream + ":validate-raises:" + type(e).__name__)
@@ -156,13 +156,13 @@ def one_document(ctx, schema, holder, dump, sdl, enum_kind, label, text, variabl
         ctx.fail("validate-raises:%s:%s" % (type(e).__name__, site),
                  "validate_ast raises %s (in %s) instead of returning its list of errors" % (type(e).__name__, site),
                  dict(base, small=shrink_raise(schema, text, type(e), site)))
-        return
+        return "raises:" + type(e).__name__
     if v.errors:
         ctx.stat(stream + ":rejected")
         ctx.nontrivial((sdl, text))
         _sample(ctx, stream, {"stream": stream, "label": label, "document": text[:400], "variables": variables,
                               "validate": "rejected: %d error(s), first: %s" % (len(v.errors), str(v.errors[0])[:120])})
-        return
+        return "rejected"
     ctx.stat(stream + ":accepted")
     if label:
         ctx.stat("accepted-adversarial:" + label)
@@ -178,23 +178,23 @@ def one_document(ctx, schema, holder, dump, sdl, enum_kind, label, text, variabl
         except Exception as e:  # noqa
             ctx.fail("prepare-raises:%s" % type(e).__name__, "variable coercion / operation selection raises an undocumented exception",
                      dict(base, error=str(e)[:200]))
-            return
+            return "accepted"
         if st != "ok":
             ctx.stat(stream + ":" + st)
-            return
+            return "accepted"
         ctx.count()
         if "internal" in c.impl:
             ctx.fail("internal-exception-on-validated-operation:%s:%s" % (c.impl["internal"], label or K.features_sig(text)),
                      "validation accepted the document, execution under a typed world raised %s" % c.impl["internal"],
                      c.replay_data({"impl": c.impl, "label": label}))
-            return
+            return "accepted"
         if "data" in c.impl:
             why = check_shape(dump, c.docj, c.opname, c.coerced, c.impl)
             if why:
                 ctx.fail("shape-mismatch:%s" % (label or K.features_sig(text)),
                          "validation accepted the document but the response data does not have the shape given by selections and types: " + why,
                          c.replay_data({"impl": c.impl, "label": label}))
-                return
+                return "accepted"
             if c.impl["data"]:
                 ctx.nontrivial((sdl, text, c.seed))
         if k == 0:
@@ -202,6 +202,7 @@ def one_document(ctx, schema, holder, dump, sdl, enum_kind, label, text, variabl
                                   "validate": "accepted", "seed": c.seed, "execution": json.dumps(c.impl)[:300]})
         if lean_batch is not None:
             lean_batch.append((dump, c, label))
+    return "accepted"
 
 
 _SAMPLED = {}
@@ -256,6 +257,65 @@ def shrink_raise(schema, text, cls, site):
     return cur
 
 
+def history_variants(rng, text):
+    """documents that USE names defined by `text` without defining them (fragment definition / variable definitions removed)"""
+    from py_gql.lang import parse, print_ast
+    from py_gql.lang import ast as _ast
+    out = []
+    try:
+        doc = parse(text)
+    except Exception:  # noqa
+        return out
+    frags = [d for d in doc.definitions if isinstance(d, _ast.FragmentDefinition)]
+    if frags:
+        victim = rng.choice(frags)
+        doc2 = parse(text)
+        doc2.definitions = [d for d in doc2.definitions
+                            if not (isinstance(d, _ast.FragmentDefinition) and d.name.value == victim.name.value)]
+        out.append(("fragment-definition-dropped", print_ast(doc2)))
+    doc3 = parse(text)
+    changed = False
+    for d in doc3.definitions:
+        if isinstance(d, _ast.OperationDefinition) and d.variable_definitions:
+            d.variable_definitions = d.variable_definitions[1:] if rng.random() < 0.5 else []
+            changed = True
+    if changed:
+        out.append(("variable-definition-dropped", print_ast(doc3)))
+    return out
+
+
+_FRESH = {}
+
+
+def fresh_validator(ctx):
+    from common import REPO
+    from corr.fresh_validate import FreshValidator
+    if id(ctx) not in _FRESH:
+        _FRESH[id(ctx)] = FreshValidator(REPO / "src")
+    return _FRESH[id(ctx)]
+
+
+def compare_with_fresh_process(ctx, sdl, enum_kind, judged):
+    """the verdict after a history of earlier validations in this process must be the verdict of a fresh process"""
+    if not judged:
+        return
+    fv = fresh_validator(ctx)
+    for stream, label, text, vs, opname, st, history in judged:
+        r = fv.verdict(sdl, text)
+        ctx.count()
+        ctx.stat("fresh-process:" + r["status"].split(":")[0])
+        if r["status"].startswith("server"):
+            ctx.notes.append("fresh-process validator: " + r["status"])
+            continue
+        if r["status"] != st:
+            ctx.fail("history-dependent-verdict:%s->%s:%s" % (r["status"].split(":")[0], st.split(":")[0], label or stream),
+                     "validate_ast answers '%s' after earlier validations in the same process but '%s' in a fresh process%s"
+                     % (st, r["status"], (" (%s)" % r.get("first")) if r.get("first") else ""),
+                     {"sdl": sdl, "enum_kind": enum_kind, "document": text, "variables": vs, "operation_name": opname,
+                      "label": label, "in_process": st, "fresh_process": r, "history": history,
+                      "note": "replay validates the documents of `history` first, in this order, then compares with a fresh process"})
+
+
 def run(ctx):
     rng = ctx.rng
     n_schemas = ctx.n(12, 60)
@@ -275,24 +335,40 @@ def run(ctx):
             ctx.stat("schema-build-failed:" + type(e).__name__)
             continue
         valid_ops = []
+        docs = []     # (stream, label, text, variables, opname)
         for j in range(ctx.n(8, 12)):
             # p_avoid_v2 low: this property WANTS identical fields with structured arguments
             op = go.gen_operation(rng, desc, size=rng.randint(1, 3), p_avoid_v2=0.5)
             valid_ops.append(op)
-            one_document(ctx, schema, holder, dump, sdl, enum_kind, None, op["text"], op["variables"], op["opname"], lean_batch, "valid")
+            docs.append(("valid", None, op["text"], op["variables"], op["opname"]))
         for label, text, vs in go.adversarial_documents(rng, desc, ctx.n(16, 24)):
-            one_document(ctx, schema, holder, dump, sdl, enum_kind, label, text, vs, None, lean_batch, "adversarial")
+            docs.append(("adversarial", label, text, vs, None))
         for j in range(ctx.n(12, 20)):
             op = rng.choice(valid_ops)
             text = op["text"]
             for _ in range(rng.randint(1, 2)):
                 text = go.mutate_text(rng, text, desc)
-            one_document(ctx, schema, holder, dump, sdl, enum_kind, None, text, op["variables"], op["opname"], lean_batch, "mutant")
+            docs.append(("mutant", None, text, op["variables"], op["opname"]))
+        # HISTORIES: the requests of one process come in random order, and documents that reuse the fragment,
+        # variable and operation names of EARLIER documents without defining them come after those documents
+        rng.shuffle(docs)
+        for op in valid_ops:
+            for label, text in history_variants(rng, op["text"]):
+                idx = next(i for i, d in enumerate(docs) if d[0] == "valid" and d[2] == op["text"])
+                docs.insert(rng.randint(idx + 1, len(docs)), ("history", label, text, op["variables"], op["opname"]))
+        judged = []
+        for di, (stream, label, text, vs, opname) in enumerate(docs):
+            st = one_document(ctx, schema, holder, dump, sdl, enum_kind, label, text, vs, opname, lean_batch, stream)
+            if st != "syntax" and (stream == "history" or (st == "accepted" and stream != "valid") or rng.random() < 0.08):
+                judged.append((stream, label, text, vs, opname, st, [d[2] for d in docs[:di]]))
+        compare_with_fresh_process(ctx, sdl, enum_kind, judged)
         if use_lean and len(lean_batch) >= 150:
             flush_lean(ctx, lean_batch)
             del lean_batch[:]
     if use_lean and lean_batch:
         flush_lean(ctx, lean_batch)
+    if id(ctx) in _FRESH:
+        _FRESH.pop(id(ctx)).close()
     if not use_lean:
         ctx.notes.append("Lean driver not available: only the direct oracle ran")
 
@@ -384,6 +460,28 @@ def replay(ctx, data):
     schema, holder, dump = X.build(inp["sdl"], inp.get("enum_kind", 0))
     text = inp.get("small") or inp["document"]
     ok = True
+    if "history" in inp:
+        from common import REPO
+        from corr.fresh_validate import FreshValidator
+        from py_gql.exc import GraphQLSyntaxError
+        for h in inp["history"]:
+            try:
+                validate_ast(schema, parse(h))
+            except Exception:  # noqa
+                pass
+        try:
+            v = validate_ast(schema, parse(inp["document"]))
+            here = "rejected" if v.errors else "accepted"
+        except GraphQLSyntaxError:
+            here = "syntax"
+        except Exception as e:  # noqa
+            here = "raises:" + type(e).__name__
+        fv = FreshValidator(REPO / "src")
+        fresh = fv.verdict(inp["sdl"], inp["document"])
+        fv.close()
+        print("after history: %s; fresh process: %s" % (here, fresh))
+        if fresh["status"] != here:
+            ok = False
     for t in {text, inp["document"]}:
         try:
             v = validate_ast(schema, parse(t))
